@@ -11,7 +11,7 @@ import (
 //
 //	fams  "4" | "6" | "46"
 //	ap    four 0/1: add-path receive v4, send v4, receive v6, send v6
-//	mp4   0/1 AdvertiseIPv4MultiProtocol
+//	mp4   0/1 AdvertiseIPv4MultiProtocol, optionally followed by 0/1 IPv4.NextHopExtended
 //	role  config role 0..5 (0 off, 1 provider, 2 RS, 3 RS-client, 4 customer, 5 peer), strict 0/1
 //	rr    0/1 route reflector client, cluster id
 //	imp   import policy: A accept all, D reject all, R rewrite (set local-pref 200) and accept
@@ -22,6 +22,7 @@ type SessCfg struct {
 	V4, V6                 bool
 	APR4, APS4, APR6, APS6 bool
 	MP4                    bool
+	NX4                    bool // IPv4.NextHopExtended
 	Role                   int
 	Strict                 bool
 	RR                     bool
@@ -46,7 +47,7 @@ func (c SessCfg) String() string {
 		f += "6"
 	}
 	return fmt.Sprintf("s%d/%d/%d/%d/%s/%s%s%s%s/%s/%d%s/%s.%d/%c/%c", c.LAS, c.PAS, c.RID, c.Hold, f,
-		b01(c.APR4), b01(c.APS4), b01(c.APR6), b01(c.APS6), b01(c.MP4), c.Role, b01(c.Strict), b01(c.RR), c.Cluster, c.Imp, c.Init)
+		b01(c.APR4), b01(c.APS4), b01(c.APR6), b01(c.APS6), b01(c.MP4)+b01(c.NX4), c.Role, b01(c.Strict), b01(c.RR), c.Cluster, c.Imp, c.Init)
 }
 
 func ParseSessCfg(t string) (SessCfg, error) {
@@ -88,11 +89,12 @@ func ParseSessCfg(t string) (SessCfg, error) {
 	default:
 		return c, bad
 	}
-	if len(p[5]) != 4 || len(p[6]) != 1 || len(p[7]) != 2 || len(p[9]) != 1 || len(p[10]) != 1 {
+	if len(p[5]) != 4 || len(p[6]) < 1 || len(p[6]) > 2 || len(p[7]) != 2 || len(p[9]) != 1 || len(p[10]) != 1 {
 		return c, bad
 	}
 	c.APR4, c.APS4, c.APR6, c.APS6 = p[5][0] == '1', p[5][1] == '1', p[5][2] == '1', p[5][3] == '1'
-	c.MP4 = p[6] == "1"
+	c.MP4 = p[6][0] == '1'
+	c.NX4 = len(p[6]) == 2 && p[6][1] == '1'
 	c.Role = int(p[7][0] - '0')
 	if c.Role < 0 || c.Role > 5 {
 		return c, bad
@@ -122,6 +124,7 @@ func ParseSessCfg(t string) (SessCfg, error) {
 //	K                              KEEPALIVE
 //	O,<ver>,<asn16>,<hold>,<id>,<caps>   OPEN (caps: '-' or '+'-joined a<asn4> m<afi>.<safi> p<afi>.<safi>.<sr> r<role> u<code>)
 //	U,<ann>,<wd>                   UPDATE announcing / withdrawing route ids ('-' or '.'-joined), encoded as the speaker expects
+//	P,<rid>,<a|c>,<v>              UPDATE announcing route rid with v in its AS_PATH (a) or CLUSTER_LIST (c)
 //	N,<code>,<sub>                 NOTIFICATION
 //	H,<marker 0|1>,<len>,<type>,<avail>  raw header + avail zero bytes, then the peer stops sending
 //	T,<n>                          only n (< 19) bytes of a header, then the peer stops sending
@@ -137,6 +140,9 @@ type Msg struct {
 	Len, Type, Avail int
 	N                int
 	Variant          string
+	RID              int    // P
+	ByASN            bool   // P
+	Val              uint32 // P
 }
 
 func idsString(ids []int) string {
@@ -173,6 +179,12 @@ func (m Msg) String() string {
 		return fmt.Sprintf("O,%d,%d,%d,%d,%s", m.Ver, m.ASN16, m.Hold, m.ID, capsString(m.Caps))
 	case 'U':
 		return fmt.Sprintf("U,%s,%s", idsString(m.Ann), idsString(m.Wd))
+	case 'P':
+		k := "c"
+		if m.ByASN {
+			k = "a"
+		}
+		return fmt.Sprintf("P,%d,%s,%d", m.RID, k, m.Val)
 	case 'N':
 		return fmt.Sprintf("N,%d,%d", m.Code, m.Sub)
 	case 'H':
@@ -232,6 +244,15 @@ func ParseMsg(s string) (Msg, error) {
 		if m.Wd, err = parseIDs(p[2]); err != nil {
 			return m, err
 		}
+	case 'P':
+		if len(p) != 4 || (p[2] != "a" && p[2] != "c") {
+			return m, bad
+		}
+		v, ok := ints([]string{p[1], p[3]})
+		if !ok || v[0] > 255 || v[1] > 0xffffffff {
+			return m, bad
+		}
+		m.RID, m.ByASN, m.Val = v[0], p[2] == "a", uint32(v[1])
 	case 'N':
 		if len(p) != 3 {
 			return m, bad
